@@ -5,6 +5,7 @@ import (
 	"encoding/json"
 	"fmt"
 	"maps"
+	"reflect"
 	"slices"
 	"strings"
 
@@ -388,7 +389,31 @@ func (n nodeJSON) ToNode() (ast.Node, error) {
 	}
 }
 
+// nodeJSONKeys holds the keys nodeJSON decodes itself (every other key is an extension function or method)
+var nodeJSONKeys = func() map[string]bool {
+	keys := map[string]bool{}
+	t := reflect.TypeOf(nodeJSON{})
+	for i := 0; i < t.NumField(); i++ {
+		if name, _, _ := strings.Cut(t.Field(i).Tag.Get("json"), ","); name != "" && t.Field(i).Tag.Get("json") != "-" {
+			keys[name] = true
+		}
+	}
+	return keys
+}()
+
 func (n *nodeJSON) UnmarshalJSON(b []byte) error {
+	// Look at the keys first. Decoding the whole object and falling back on an "unknown field" error decodes the
+	// subtree below a known key twice, at every level: time exponential in the nesting depth (an 800-byte document
+	// did not return).
+	var keys map[string]json.RawMessage
+	if err := json.Unmarshal(b, &keys); err == nil {
+		for k := range keys {
+			if !nodeJSONKeys[k] {
+				return json.Unmarshal(b, &n.ExtensionCall)
+			}
+		}
+	}
+
 	decoder := json.NewDecoder(bytes.NewReader(b))
 	decoder.DisallowUnknownFields()
 
